@@ -2,10 +2,7 @@
 
 package centrifuge
 
-import "fmt"
+import "github.com/centrifugal/centrifuge/internal/zzverif/vsched"
 
 // VerifMain is the entry point of the verification harness binary.
-func VerifMain(args []string) int {
-	fmt.Println("hello", args)
-	return 0
-}
+func VerifMain(args []string) int { return vsched.Main(args) }
